@@ -247,7 +247,7 @@ int main(int argc, char **argv)
         rng_seed(&R, seed);
         tramp_setup();
         guard_setup();
-        gcm_sweep = getenv("VERIF_GCM_SWEEP") != NULL;
+        gcm_sweep = getenv("VERIF_GCM_SWEEP") ? atoi(getenv("VERIF_GCM_SWEEP")) : 0;
         guard_out = fr;
         sens_out = fr;
         long done = 0;
@@ -346,11 +346,14 @@ int main(int argc, char **argv)
                                 int dec = rng_below(&R, 2);
                                 uint64_t ivseed = rng_u64(&R) | 1, aadseed = rng_u64(&R) | 1;
                                 uint32_t aadlen;
-                                switch (rng_below(&R, 6)) {
+                                switch (rng_below(&R, 9)) {
                                 case 0: aadlen = 0; break;
                                 case 1: aadlen = 1 + rng_below(&R, 20); break;
                                 case 2: aadlen = 16 * rng_below(&R, 5); break;
                                 case 3: aadlen = 127 + rng_below(&R, 3); break;
+                                case 4: aadlen = 256 * (1 + rng_below(&R, 9)) + rng_below(&R, 3) - 1; break; /* 16x16-byte AAD loops of the wide kernels */
+                                case 5: aadlen = 16 * rng_below(&R, 140); break;
+                                case 6: aadlen = rng_below(&R, 2200); break;
                                 default: aadlen = rng_below(&R, 300); break;
                                 }
                                 unsigned aoff = rng_below(&R, 16), ivoff = rng_below(&R, 16);
@@ -360,9 +363,17 @@ int main(int argc, char **argv)
                                 int taglen = 8 + 4 * rng_below(&R, 3);
                                 uint8_t tag[16], otag[16];
                                 memset(cd, 0x3C ^ (uint8_t) done, sizeof(CD));
-                                if (!gcm_sweep && rng_below(&R, 3) == 0) {
+                                if (gcm_sweep == 2 || (!gcm_sweep && rng_below(&R, 3) == 0)) {
                                         /* one-shot */
                                         uint32_t len = pick_len(&R, maxlen, 1);
+                                        if (gcm_sweep == 2) {
+                                                /* one-shot counter-carry sweep: block counts 200..530 (the 8-bit counter shortcut of the
+                                                   by-8 / by-16 loops wraps inside the message at every possible phase), with and
+                                                   without a partial last block */
+                                                len = 16 * (200 + sweep_idx % 331) + (rng_below(&R, 2) ? rng_below(&R, 16) : 0);
+                                                if (G->nt) len -= len % 64;
+                                                sweep_idx++;
+                                        }
                                         uint64_t dseed = rng_u64(&R) | 1;
                                         unsigned ioff = G->nt ? 0 : rng_below(&R, 64), ooff = G->nt ? 0 : rng_below(&R, 64);
                                         int inplace = rng_below(&R, 2);
